@@ -142,7 +142,7 @@ func Run(h *ref.History, o Opts) *Outcome {
 			}
 			s.mu.Lock()
 			if att < len(s.master.Logs) {
-				d.Released = s.master.Logs[len(s.master.Logs)-1].Released
+				d.Released = int(atomic.LoadInt64(&s.master.Logs[len(s.master.Logs)-1].Releasing))
 			}
 			s.mu.Unlock()
 			k := ndel
